@@ -166,16 +166,6 @@ def respond (req : Sexp) : Sexp :=
           else .list (ps.map fun p => .list [.str p.name, .str p.tptpText])
         | none => .list [.atom "timeout"]
     | _, _, _, _, _, _, _, _ => bad
-  | .list [.atom "strong_rename_issues", l, r, .atom dec, .atom dir, .atom rep, simp, brk, fuel] =>
-    match Asp.programOfSexp l, Asp.programOfSexp r, Decomposition.ofName dec, Direction.ofName dir,
-        FormulaRep.ofName rep, simp.asBool?, brk.asBool?, fuel.asNat? with
-    | some l, some r, some dec, some dir, some rep, some simp, some brk, some fuel =>
-      let t : StrongTask := ⟨l, r, dec, dir, rep, simp, brk⟩
-      if strongPanics t then .list [.atom "panic"]
-      else match strongRenameIssues t fuel with
-        | some is => .list (is.map fun (a, b) => .list [.str a, .str b])
-        | none => .list [.atom "timeout"]
-    | _, _, _, _, _, _, _, _ => bad
   | .list [.atom "strong_hygiene", l, r, .atom dec, .atom dir, .atom rep, simp, brk, fuel] =>
     match Asp.programOfSexp l, Asp.programOfSexp r, Decomposition.ofName dec, Direction.ofName dir,
         FormulaRep.ofName rep, simp.asBool?, brk.asBool?, fuel.asNat? with
